@@ -9,12 +9,13 @@ for d in sorted(glob.glob(os.path.join(ROOT, 'seeded', '*'))):
         continue
     m = json.load(open(mp))
     if not m.get('confirmed'):
-        rows.append('| %s | (not confirmed: %s) | | | |' % (m['id'], json.dumps(m.get('ran', {}))[:80]))
+        rows.append('| %s | (not confirmed: %s) | | | | |' % (m['id'], json.dumps(m.get('ran', {}))[:80]))
         continue
     own = 'yes' if m.get('caught_by_own_property') else 'NO'
-    rows.append('| %s | %s | %s | %s | %s |' % (
+    ran = sorted(m.get('checks', {}))
+    rows.append('| %s | %s | %s | %s | %s | %s |' % (
         m['id'], (m.get('summary') or '').replace('|', '/')[:150], (m.get('needs') or '').replace('|', '/')[:120],
-        own, ' '.join(m.get('with_failing_input', [])) or '-'))
+        own, ' '.join(m.get('with_failing_input', [])) or '-', 'all 19' if len(ran) == 19 else ' '.join(ran)))
 conf = [json.load(open(os.path.join(d, 'meta.json'))) for d in sorted(glob.glob(os.path.join(ROOT, 'seeded', '*'))) if os.path.exists(os.path.join(d, 'meta.json'))]
 conf = [m for m in conf if m.get('confirmed')]
 summary = ('%d confirmed changes; caught by at least one check: %d; by the check of the property they were written against: %d '
@@ -22,8 +23,8 @@ summary = ('%d confirmed changes; caught by at least one check: %d; by the check
     len(conf), sum(1 for m in conf if m['caught_by']), sum(1 for m in conf if m['property'] in m['caught_by']),
     sum(1 for m in conf if m['property'] in m['with_failing_input']),
     sum(1 for m in conf if m['caught_by'] and not m['with_failing_input'])))
-table = ['<!-- seeded-table-begin -->', summary, '', '| id | change | needs | caught by its own property\'s check | checks reporting a concrete failing input |',
-         '|---|---|---|---|---|'] + rows + ['<!-- seeded-table-end -->']
+table = ['<!-- seeded-table-begin -->', summary, '', '| id | change | needs | caught by its own property\'s check | checks reporting a concrete failing input | checks run in the last evaluation |',
+         '|---|---|---|---|---|---|'] + rows + ['<!-- seeded-table-end -->']
 p = os.path.join(ROOT, 'DESIGN.md')
 s = open(p).read()
 if '<!-- seeded-table-begin -->' in s:
